@@ -555,6 +555,36 @@ def const_pair(rnd):
     return t
 
 
+def unary_stack(rnd):
+    """templates with one to three stacked unary operators at the positions the rules inspect: a negated (doubly, triply negated)
+    denominator, subtrahend, factor, addend, exponent base, or folded constant pair (seed C01-D hid behind x / -(-y))."""
+    def negs(t):
+        for _ in range(rnd.choice([1, 2, 2, 3])):
+            t = (rnd.choice(["neg", "neg", "neg", "sgn"]), t)
+        return t
+    a, b = rtree(rnd, rnd.randint(0, 1)), rtree(rnd, rnd.randint(0, 1))
+    c1, c2 = rnd.choice(CONSTS), rnd.choice(CONSTS)
+    k = rnd.randrange(9)
+    if k == 0:
+        return ("div", a, negs(b))
+    if k == 1:
+        return ("sub", a, negs(rnd.choice([b, V(rnd.choice("xyz")), c1])))
+    if k == 2:
+        return negs((rnd.choice(["add", "sub", "mul", "div"]), c1, c2))
+    if k == 3:
+        return ("mul", negs(a), b) if rnd.random() < 0.5 else ("mul", a, negs(b))
+    if k == 4:
+        return ("add", a, negs(rnd.choice([b, c1, ("mul", c1, V(rnd.choice("xyz")))])))
+    if k == 5:
+        return ("pow", negs(a), c2) if rnd.random() < 0.5 else ("pow", a, negs(c2))
+    if k == 6:
+        v = V(rnd.choice("xyz"))
+        return (rnd.choice(["add", "mul"]), negs(("mul", c1, v)), ("mul", c2, v))
+    if k == 7:
+        return ("div", negs(a), negs(b))
+    return negs(like_pair(rnd))
+
+
 def perturb(rnd, t, n=1):
     """near-miss generator: change the operator kind of a binary node, swap a unary kind, or replace a leaf by another
     leaf class (constant <-> variable, zero / negative / fractional constant) at n random positions."""
